@@ -115,6 +115,12 @@ def build(s):
         return immutabledict([(k, build(v)) for k, v in s[1:]])
     if t == "dict":
         return {k: build(v) for k, v in s[1:]}
+    if t == "mproxy":           # an unhashable Mapping that is not a dict
+        import types
+        return types.MappingProxyType({k: build(v) for k, v in s[1:]})
+    if t == "userdict":
+        import collections
+        return collections.UserDict({k: build(v) for k, v in s[1:]})
     if t == "type":
         return _TYPES[s[1]]
     if t == "np":
